@@ -4,13 +4,13 @@ import "math/big"
 
 type PKCS1PublicKey struct {
 	N *big.Int
-	E int
+	E *big.Int
 }
 
 type PKCS1PrivateKey struct {
 	Version int
 	N       *big.Int
-	E       int
+	E       *big.Int
 	D       *big.Int
 	P       *big.Int
 	Q       *big.Int
